@@ -239,6 +239,24 @@ RATERS = RaterMemo()           # serves the nanite.indent.get_rater seam
 REF_RATERS = ReferenceRaterMemo()
 
 
+def merge_shared(idnt, options):
+    """The one options dictionary a caller keeps for this curve, edited in
+    place (nested entries included) to the value of `options`."""
+    shared = idnt.__dict__.setdefault("_sim_shared_opts", {})
+    for k_ in list(shared):
+        if k_ not in options:
+            del shared[k_]
+    for k_, v_ in options.items():
+        if isinstance(shared.get(k_), dict) and isinstance(v_, dict):
+            for kk in list(shared[k_]):
+                if kk not in v_:
+                    del shared[k_][kk]
+            shared[k_].update(v_)
+        else:
+            shared[k_] = v_
+    return shared
+
+
 def apply_op(idnt, op, log=None):
     """Apply one op to the real object with a well-behaved (by value)
     caller. Returns an outcome dict."""
@@ -263,20 +281,7 @@ def apply_op(idnt, op, log=None):
                     # the caller keeps ONE options dictionary for this curve
                     # and edits it in place (nested entries included) to
                     # what it wants next, then passes the same object
-                    shared = idnt.__dict__.setdefault("_sim_shared_opts", {})
-                    for k_ in list(shared):
-                        if k_ not in options:
-                            del shared[k_]
-                    for k_, v_ in options.items():
-                        if isinstance(shared.get(k_), dict) and \
-                                isinstance(v_, dict):
-                            for kk in list(shared[k_]):
-                                if kk not in v_:
-                                    del shared[k_][kk]
-                            shared[k_].update(v_)
-                        else:
-                            shared[k_] = v_
-                    options = shared
+                    options = merge_shared(idnt, options)
                 route = op.get("route", "apply")
                 if route == "apply":
                     idnt.apply_preprocessing(steps, options)
@@ -862,7 +867,10 @@ class CurveEngineC03:
     components = COMPONENTS
     assumptions = [
         "the caller passes fresh deep copies and never edits returned "
-        "objects (aliasing is C10's business)",
+        "objects (aliasing is C10's business); one exception: some "
+        "preprocessing requests come from a caller that keeps a single "
+        "options dictionary per curve and edits it in place between "
+        "requests - by value an ordinary sequence of requests",
         "oracle recomputes with nanite's own code on a freshly built curve: "
         "detects history/cache dependence, not a formula that is wrong the "
         "same way from scratch",
@@ -985,6 +993,25 @@ class CurveEngineC03:
                     op["fault"] = gen_fault(
                         rng, ["poc", "poc", "slopefit", "smooth", "turning",
                               "poc_dfb"], 3)
+                if op["options"] and rng.random() < 0.3 \
+                        and "fault" not in op:
+                    # a caller that keeps one options dictionary for this
+                    # curve, edits it in place (nested entries included) and
+                    # passes the same object again: by value it is an
+                    # ordinary sequence of requests
+                    op["shared_options"] = True
+                    if op["options"].get("correct_tip_offset") and \
+                            rng.random() < 0.7:
+                        ops.append(op)
+                        if rng.random() < 0.5:
+                            ops.append({"op": "fit", "kw": {}})
+                        op = copy.deepcopy(op)
+                        cur = op["options"]["correct_tip_offset"].get(
+                            "method")
+                        op["options"]["correct_tip_offset"]["method"] = \
+                            rng.choice([m for m in POC_METHODS[:1]
+                                        + POC_METHODS[4:] if m != cur])
+                        op["route"] = rng.choice(["apply", "fit_kw"])
             elif r < 0.62:
                 inv = swarm["invalid"] and rng.random() < 0.2
                 kw = gen_fit_kw(rng, invalid=inv)
